@@ -4,6 +4,7 @@ package main
 // selection. C06.identity — non-directive structure is rebuilt unchanged by process1/process2.
 
 import (
+	"go/token"
 	"fmt"
 	"go/constant"
 	"go/types"
@@ -480,7 +481,21 @@ func ruleC10Universe(p *Prog, r *Result) {
 							bad = "the list changes between iterations of the loop in which documents are evaluated"
 						}
 					}
-					r.Check(bad == "", "C10.universe", key, p.InstrPos(in), "the list of documents that references are resolved against is fixed before any document is evaluated",
+					// the document being evaluated is taken from a list: that list is the one its references see
+				for _, d := range ci.Common().Args {
+					u, ok := d.(*ssa.UnOp)
+					if !ok || u.Op != token.MUL {
+						continue
+					}
+					ia, ok := u.X.(*ssa.IndexAddr)
+					if !ok || !strings.HasSuffix(d.Type().String(), "bkl.Document") {
+						continue
+					}
+					if ia.X != a && (accessPath(ia.X) == "" || accessPath(ia.X) != accessPath(a)) {
+						bad = fmt.Sprintf("the document is taken from %s but its references are resolved against %s: cross-document references see other copies of the documents than the ones being evaluated", describeValue(p, ia.X), describeValue(p, a))
+					}
+				}
+				r.Check(bad == "", "C10.universe", key, p.InstrPos(in), "the list of documents that references are resolved against is fixed before any document is evaluated",
 						bad+": a document evaluated early cannot see documents added later (forward $match references fail, ambiguous ones resolve silently)")
 				}
 			}
